@@ -41,15 +41,26 @@ Applicable(o, P, f) ==
     [] f.step \in {"mounts", "mounts_mkdir", "pivot_tmpfs", "pivot_root"} -> o.pivot
     [] OTHER -> f.step \in P                               \* invalid BPF program, missing paths, limits, ...
 
+\* Gate family, generated and run in EVERY tier whatever the orchestrator samples: every combination of
+\* the flags that select a branch of syncWithChild (early return or wait for the exec result) and a sync
+\* site of the child -- seccomp, ptrace, stop, sync, ucg -- with everything else off, crossed with one
+\* failure point before the sync point (chdir), the failure points after it (seccomp load sites, execve
+\* missing / not executable / malformed) and the callback results.  Each flag combination thus meets a
+\* failure on either side of the point where Start may stop listening.
+GateSites == { a + b + c + d + e : a \in {0, 8}, b \in {0, 16}, c \in {0, 32}, d \in {0, 64}, e \in {0, 128} }
+GateBases == { s * 512 : s \in GateSites }
+GateSteps == {"none", "chdir", "seccompA", "seccompB", "exec"}
+
 CasesOf(b) ==
   LET o == MkOpt(SiteOf(b), RowOf(b))
       P == ToSet(ChildPath(o))
+      gate(step) == b \in GateBases /\ step \in GateSteps
   IN IF HangCombo(o) THEN {}
-     ELSE { [s |-> SiteOf(b), r |-> RowOf(b), opt |-> o, fail |-> f.step, idx |-> f.idx, cb |-> "ok", hang |-> FALSE]
+     ELSE { [s |-> SiteOf(b), r |-> RowOf(b), opt |-> o, fail |-> f.step, idx |-> f.idx, cb |-> "ok", hang |-> FALSE, gate |-> gate(f.step)]
             : f \in { ff \in Recipes : Applicable(o, P, ff) } }
-          \cup (IF o.sync THEN { [s |-> SiteOf(b), r |-> RowOf(b), opt |-> o, fail |-> "none", idx |-> 0, cb |-> x, hang |-> FALSE] : x \in {"ok", "err"} }
+          \cup (IF o.sync THEN { [s |-> SiteOf(b), r |-> RowOf(b), opt |-> o, fail |-> "none", idx |-> 0, cb |-> x, hang |-> FALSE, gate |-> gate("none")] : x \in {"ok", "err"} }
                 ELSE {})
-C07Cases == UNION { CasesOf(b) : b \in C07Bases }
+C07Cases == UNION { CasesOf(b) : b \in C07Bases \cup GateBases }
 
 ASSUME ndJsonSerialize("c04cases.ndjson", SetToSeq(C04Cases))
 ASSUME ndJsonSerialize("c07cases.ndjson", SetToSeq(C07Cases))
